@@ -1,4 +1,5 @@
 """C02 -- a missing value removes exactly its own forecast case, never more, never less."""
+import itertools
 import numpy as np
 import xarray as xr
 
@@ -71,43 +72,34 @@ def recipe_masked_vs_deleted(ctx):
                 nw = len(xs) - 1
                 ctx.count("recipe_weights_as_input")
             having = [i for i, x in enumerate(xs) if d in x.dims]
-            # blank every input, or only some of them (the case is invalid as soon as one input is missing). CDF scores:
-            # a deleted observation would also leave the common threshold grid, so all inputs are blanked there;
-            # single-input functions must lose their own input
-            if nw is not None and "threshold" not in rc.nondata and rng.random() < 0.4:
-                blank = {nw}                                # only the weight of the case is missing
-                ctx.count("recipe_only_weight_blanked")
-            elif "threshold" in rc.nondata or rng.random() < 0.4:
-                blank = set(having)
+            # the case is invalid as soon as ONE input is missing: every non-empty subset of the inputs that carry the
+            # dimension is blanked in turn (not a random one: a NaN in exactly one particular input is what slips).
+            # CDF scores: a deleted observation would also leave the common threshold grid, and a kept one stays in it,
+            # so there all inputs are blanked together; single-input functions must lose their own input
+            if "threshold" in rc.nondata:
+                subsets = [set(having)]
             else:
-                blank = set(rng.sample(having, rng.randint(1, len(having))))
+                subsets = [set(c) for k in range(1, len(having) + 1) for c in itertools.combinations(having, k)]
                 if rc.name in ("binary_discretise_proportion",):
-                    blank.add(0)
-            for i, x in enumerate(xs):
-                if d in x.dims and i not in blank:      # the case is invalid although this input is present
-                    masked.append(x)
-                    deleted.append(recipes.mat(x.sel({d: [v for v in x[d].values if v != lab]})))
-                elif d in x.dims:
-                    masked.append(recipes.mat(x.where(x[d] != lab)))
-                    deleted.append(recipes.mat(x.sel({d: [v for v in x[d].values if v != lab]})))
-                else:
-                    masked.append(x)
-                    deleted.append(x)
+                    subsets = [b | {0} for b in subsets]
+                if len(subsets) > 7:
+                    subsets = rng.sample(subsets, 7)
             others = [e for e in xs[0].dims if e not in rc.nondata and e != d]
             kw = {"reduce_dims": [d]} if rng.random() < 0.5 else {"preserve_dims": others}
-            if nw is not None:
-                a = core.call_impl(rc.call, masked[:nw], weights=masked[nw], **kw)
-                b = core.call_impl(rc.call, deleted[:nw], weights=deleted[nw], **kw)
-            else:
-                a = core.call_impl(rc.call, masked, **kw)
-                b = core.call_impl(rc.call, deleted, **kw)
-            desc = {"fn": rc.name, "inputs": [gens.da_repr(x) for x in xs], "blanked": {d: int(lab)}, "kw": kw,
-                    "blanked_inputs": sorted(blank), "weights_is_input": nw}
-            ctx.case(desc, a[0] == "ok")
+            deleted = [recipes.mat(x.sel({d: [v for v in x[d].values if v != lab]})) if d in x.dims else x for x in xs]
+            b = core.call_impl(rc.call, deleted[:nw], weights=deleted[nw], **kw) if nw is not None else core.call_impl(rc.call, deleted, **kw)
             ctx.count("recipe:" + rc.name)
-            ok, why = scorelib.same_result(a, b, tol=1e-8)
-            if not ok:
-                ctx.violation(f"{rc.name}: blanking {d}={lab} with NaN differs from deleting that case from all inputs: {why}", desc, "equal", why)
+            for blank in subsets:
+                if blank == {nw}:
+                    ctx.count("recipe_only_weight_blanked")
+                masked = [recipes.mat(x.where(x[d] != lab)) if (d in x.dims and i in blank) else x for i, x in enumerate(xs)]
+                a = core.call_impl(rc.call, masked[:nw], weights=masked[nw], **kw) if nw is not None else core.call_impl(rc.call, masked, **kw)
+                desc = {"fn": rc.name, "inputs": [gens.da_repr(x) for x in xs], "blanked": {d: int(lab)}, "kw": kw,
+                        "blanked_inputs": sorted(blank), "weights_is_input": nw}
+                ctx.case(desc, a[0] == "ok")
+                ok, why = scorelib.same_result(a, b, tol=1e-8)
+                if not ok:
+                    ctx.violation(f"{rc.name}: blanking {d}={lab} with NaN in input(s) {sorted(blank)} differs from deleting that case from all inputs: {why}", desc, "equal", why)
 
 
 def cdf_partial_nan(ctx):
